@@ -100,6 +100,10 @@ def main():
                     pass
     finally:
         sh('git -C /repo checkout -- . && git -C /repo clean -fdq -e io/verif_export.go -e cmd/ow-sim/verif_trace_on.go -e cmd/ow-sim/verif_trace_off.go')
+    # back on the unchanged tree: the checks must pass again (this also refreshes regenerated coq/Gen files)
+    for p in [pid] + also:
+        rc, out = sh('python3 tools/%s.py --tier quick' % p.lower(), cwd='/verif', timeout=3600)
+        results[p]['exit_after_undo'] = rc
     meta['checks'] = results
     meta['detected_by'] = [p for p, r in results.items() if r['exit'] != 0]
     dst = os.path.join('/verif/seeded', name)
